@@ -1170,8 +1170,11 @@ func (e *Enc) enterBlock(fr *Frame, b *ssa.BasicBlock, in []edgeIn) *State {
 		over[phi] = e.nameVal(v, phi.Name()+".in")
 	}
 	e.checkLoopInvWith(fr, li, st, over, "entry")
-	// havoc
+	// havoc (loop-frame targets are evaluated with the entry values of the loop variables)
+	savePO := fr.phiOver
+	fr.phiOver = over
 	e.havocLoop(fr, li, st)
+	fr.phiOver = savePO
 	for _, instr := range b.Instrs {
 		phi, ok := instr.(*ssa.Phi)
 		if !ok {
@@ -1241,13 +1244,18 @@ func (e *Enc) checkLoopFrame(fr *Frame, li *loopInfo, st *State) {
 		}
 		a := e.s.Fresh("lfa", "Int")
 		var allowed []string
+		bound := li.hdrAlloc
 		for _, r := range li.frameRanges[comp] {
 			if r[0] == "fresh" {
 				continue
 			}
+			if r[0] == "fresh0" {
+				bound = e.top.entry.alloc
+				continue
+			}
 			allowed = append(allowed, fmt.Sprintf("(and (<= %s %s) (< %s (+ %s %s)))", r[0], a, a, r[0], r[1]))
 		}
-		goal := implies(and(fmt.Sprintf("(< %s %s)", a, li.hdrAlloc), not(or(allowed...))), eq(sel(cur, a), sel(hv, a)))
+		goal := implies(and(fmt.Sprintf("(< %s %s)", a, bound), not(or(allowed...))), eq(sel(cur, a), sel(hv, a)))
 		st2 := st.clone()
 		e.oblige(st2, fmt.Sprintf("loop%d-frame:%s", li.ord, comp), goal, "loop body writes "+comp+" only inside the declared loop frame", nil)
 	}
@@ -1356,7 +1364,7 @@ func (e *Enc) havocLoop(fr *Frame, li *loopInfo, st *State) {
 				case "range":
 					li.frameRanges[t.comp] = append(li.frameRanges[t.comp], [2]string{t.addr, t.n})
 				case "fresh":
-					li.frameRanges[t.comp] = append(li.frameRanges[t.comp], [2]string{"fresh", ""})
+					li.frameRanges[t.comp] = append(li.frameRanges[t.comp], [2]string{"fresh0", ""})
 				}
 				if _, ok := ws[t.comp]; !ok {
 					ws.get(t.comp, t.sort)
@@ -1369,9 +1377,7 @@ func (e *Enc) havocLoop(fr *Frame, li *loopInfo, st *State) {
 			keep := [][2]string{{"fresh", ""}}
 			w.whole = false
 			for _, r := range rs {
-				if r[0] != "fresh" {
-					keep = append(keep, r)
-				}
+				keep = append(keep, r)
 			}
 			w.ranges = keep
 		}
@@ -1398,6 +1404,9 @@ func (e *Enc) havocLoop(fr *Frame, li *loopInfo, st *State) {
 			for _, r := range w.ranges {
 				if r[0] == "fresh" {
 					outs = append(outs, fmt.Sprintf("(< a!c %s)", entryAlloc))
+				} else if r[0] == "fresh0" {
+					// declared: objects allocated since function entry may be written
+					outs = append(outs, fmt.Sprintf("(< a!c %s)", e.top.entry.alloc))
 				} else {
 					outs = append(outs, fmt.Sprintf("(not (and (<= %s a!c) (< a!c (+ %s %s))))", r[0], r[0], r[1]))
 				}
